@@ -41,6 +41,8 @@ def run_rules(pid, F, tier="quick"):
     ctx = Ctx(F, ck, tier)
     try:
         mod.run(ctx)
+        from . import premises
+        premises.apply(ctx, pid)
     except Unrecognised as u:
         ck.unrecognised("anchor", "-", u.what, site=u.site)
     except Exception as e:
